@@ -158,6 +158,14 @@ pub fn run(ctx: &mut Ctx, replay: Option<&[String]>) {
         let extra = *rng.pick(&[0usize, 1, 2, 65535, 131073]);
         ops.push(Op::Insert(extra, c));
         ops.push(Op::Toggle(probe[rng.below(probe.len())], c));
+        // one of the later multiples of 2^16 is removed (or toggled away): the entry that must go is NOT the first one of its column list
+        // with the same low 16 bits; the column's and one row's iterators are observed too (both views must lose the same entry)
+        if !rows.is_empty() && rng.chance(2, 3) {
+            let victim = rows[rng.below(rows.len())];
+            ops.push(if rng.chance(1, 2) { Op::Remove(victim, c) } else { Op::Toggle(victim, c) });
+            queries.push(format!("ir:{}", victim));
+        }
+        queries.push(format!("ic:{}", c));
         queries.push(format!("w:{}", c));
         queries.push(format!("q:{}:{}", extra, c));
         let mut h = SparseMatrix::new(nr, nc);
@@ -168,6 +176,12 @@ pub fn run(ctx: &mut Ctx, replay: Option<&[String]>) {
                 match t[0] {
                     "q" => (h.contains(t[1].parse().unwrap(), t[2].parse().unwrap()) as u8).to_string(),
                     "w" => h.col_weight(t[1].parse().unwrap()).to_string(),
+                    "ic" | "ir" => {
+                        let i: usize = t[1].parse().unwrap();
+                        let mut v: Vec<usize> = if t[0] == "ic" { h.iter_col(i).copied().collect() } else { h.iter_row(i).copied().collect() };
+                        v.sort_unstable();
+                        if v.is_empty() { "-".to_string() } else { v.iter().map(|x| x.to_string()).collect::<Vec<_>>().join(",") }
+                    }
                     _ => h.row_weight(t[1].parse().unwrap()).to_string(),
                 }
             }).collect::<Vec<_>>().join(" ")
